@@ -1376,10 +1376,11 @@ class Engine:
                         iters.append(q2)
             for q2 in iters:
                 for q3 in self.exec(q2, self._fr(q2, fr), s["body"]):
+                    broke = q3.status == "break"
                     if q3.status in ("break", "continue"):
                         q3.status = "run"
                     if q3.status == "run":
-                        if s.get("inc") is not None:
+                        if s.get("inc") is not None and not broke:
                             for q4, _ in self.ev(q3, self._fr(q3, fr), s["inc"]):
                                 self._loop_end(q4, fr, mods, s, outs)
                         else:
